@@ -203,7 +203,10 @@ def c07_table(**p):
             bt = c.int("bt_star", 1, 10)
             a1, a2 = (idx[n], idx[src]) if c.flag("star_first") else (idx[src], idx[n])
             attach = ("ANY", "ALL")[c.choice("attach", 2)]
-            blines.append(B3(1, bt, a1, a2, endpts=[idx[m] for m in members], attach=attach))
+            sb = B3(1, bt, a1, a2, endpts=[idx[m] for m in members], attach=attach,
+                    extra=(None, "CFG=0", "TOPO=1")[c.choice("star_extra", 3)])           # a keyword in front of ENDPTS
+            sb.attach_first = c.flag("attach_first")
+            blines.append(sb)
             for m in members:
                 want[(src, m)] = bt
             # plus an ordinary bond between two real atoms not already bonded
@@ -339,6 +342,11 @@ def c08(**p):
                 ccc[a] = 1 + c.choice("stale_code", 7)
                 if not chg_entries and not rad_entries:       # nothing supersedes: the code counts
                     chg[a], rad[a] = CODE_MEANING[ccc[a]]
+        if mode == "lines" and p.get("with_iso"):
+            for a in range(n):
+                if c.flag(f"hi{a}"):
+                    mass[a] = c.int(f"mass{a}", 1)
+                    iso_entries.append((a + 1, mass[a]))
         if mode == "stale" and p.get("with_iso"):
             a = c.choice("iso_atom", n)
             if elements[a] not in ("D", "T"):
@@ -382,7 +390,7 @@ def c08(**p):
         if mode == "bonds" and c.flag("atomlist"):
             atom_lists = ["  1 F    2   6   7"]
         alines = [v2000_atom_line(elements[a], (0.5 * a, -1.0, 0.25), ccc=ccc[a]) for a in range(n)]
-        t2 = v2000_text(alines, blines2, plines, atom_lists=atom_lists)
+        t2 = v2000_text(alines, blines2, plines, atom_lists=atom_lists, chiral=c.choice("chiral", 2) if p.get("chiral", mode in ("lines", "iso", "bonds")) else 0)
         a3 = []
         for a in range(n):
             props = []
@@ -515,7 +523,7 @@ def c06_v2000(**p):
                 u = c.choice("unrelated", len(UNRELATED))
                 at = c.choice("unrelated_at", len(pl) + 1)
                 pl[at:at] = UNRELATED[u]
-            text = v2000_text(al, bl, pl, header=("name", "  PROG", "comment") if alt else ("", "", ""), eol="\r\n" if alt and p.get("crlf") else "\n")
+            text = v2000_text(al, bl, pl, header=("name", "  PROG", "comment") if alt else ("", "", ""), eol="\r\n" if alt and p.get("crlf") else "\n", chiral=1 if alt else 0)
             if alt and p.get("after_end"):
                 # content after "M  END" (an SD file's data items and a following record) is not part of this molecule
                 k = c.choice("after_end", len(AFTER_END))
@@ -805,4 +813,30 @@ def c01_reader_big(**p):
         s1, s2 = tucan_of(read(t1)), tucan_of(read(t2))
         c.note("variant", ["bonds written i+1 i", "atom lines reversed", "both"][variant])
         c.oblige("strings-equal", s1 == s2, [s1[-30:], s2[-30:]])
+    return body
+
+
+
+def c08_plus(**p):
+    """Explicitly signed positive values in the three-character V2000 fields ('+13', ' +2', ' +1'), which an I3
+    reader accepts: same molecule as the unsigned rendering and as V3000."""
+    def body(c):
+        k = c.choice("which", 4)
+        iso, rad, chg = "  13", "   2", "   1"
+        if k == 1:
+            iso = " +13"
+        elif k == 2:
+            rad = "  +2"
+        elif k == 3:
+            chg = "  +1"
+        al = [v2000_atom_line("C", (0.0, 0.0, 0.0)), v2000_atom_line("O", (1.0, 0.0, 0.0))]
+        pl = [f"M  CHG  1   2{chg}", f"M  RAD  1   1{rad}", f"M  ISO  1   1{iso}"]
+        t2 = v2000_text(al, [v2000_bond_line(1, 2, 1)], pl)
+        t3 = v3000_text([A3(1, "C", (0.0, 0.0, 0.0), [("RAD", 2), ("MASS", 13)]), A3(2, "O", (1.0, 0.0, 0.0), [("CHG", 1)])], [B3(1, 1, 1, 2)])
+        read = T()["read"]
+        g2, g3 = read(t2), read(t3)
+        key = lambda g: [(d.get("element_symbol"), d.get("chg", 0), d.get("rad", 0), d.get("mass", 0)) for _, d in g.nodes(data=True)]
+        c.note("v2000", t2)
+        c.oblige("same-atoms-as-v3000", key(g2) == key(g3), [key(g2), key(g3)])
+        c.oblige("same-tucan-string", tucan_of(g2) == tucan_of(g3))
     return body
